@@ -12,6 +12,11 @@ CHECKS = {
   note="Kernel-checked for the integer kernels; float rounding is outside any theorem (tie + oracle only). Model tied to /repo by differential correspondence on grids + seeded pairs (coverage in evidence).",
   technique="Lean 4 proof (Int64 -> Int refinement, omega) + model/implementation correspondence + Python oracle",
   ref="C04"),
+ "C19": dict(
+  text="Lean 4 theorems over all documents (List Char, no length bound): offset->position->offset round trip on every character boundary, strict monotonicity, agreement with counting newlines/characters, span_to_range well-formed and inside the document for every pair of raw offsets (empty, reversed, past the end, inside a character), terminal line = editor line + 1; terminal column proved to be a byte count (partial: agrees with the character count when the line prefix is ASCII; counter-example kernel-checked and listed as a known finding).",
+  note="u32/usize counters modelled as Nat; model tied to the real functions (and format_error rendering) by exhaustive small documents over a 6-character alphabet plus random documents.",
+  technique="Lean 4 proof (induction over documents, loop invariants) + exhaustive small-document correspondence + counting oracle",
+  ref="C19"),
 }
 
 NOT_APPLICABLE = {
